@@ -154,7 +154,9 @@ def _coerce_input_object(
         field_name = field.name
 
         if field_name not in value:
-            if isinstance(field.type, NonNullType):
+            if field.has_default_value:
+                coerced[field.python_name] = field.default_value
+            elif isinstance(field.type, NonNullType):
                 errors.append(
                     CoercionError(
                         "Field %s of required type %s was not provided"
